@@ -84,6 +84,10 @@ where
     let mut r#match = None;
     let mut len = 0;
 
+    // The buffer of the underlying reader can end inside a multibyte character, so a field that
+    // spans more than one buffer is validated as a whole.
+    let mut field = Vec::new();
+
     loop {
         let src = reader.fill_buf()?;
 
@@ -99,12 +103,23 @@ where
             None => (src, src.len()),
         };
 
-        let s = str::from_utf8(buf).map_err(|e| io::Error::new(io::ErrorKind::InvalidData, e))?;
-        dst.push_str(s);
+        if r#match.is_some() && field.is_empty() {
+            let s =
+                str::from_utf8(buf).map_err(|e| io::Error::new(io::ErrorKind::InvalidData, e))?;
+            dst.push_str(s);
+        } else {
+            field.extend_from_slice(buf);
+        }
 
         len += n;
 
         reader.consume(n);
+    }
+
+    if !field.is_empty() {
+        let s =
+            str::from_utf8(&field).map_err(|e| io::Error::new(io::ErrorKind::InvalidData, e))?;
+        dst.push_str(s);
     }
 
     let is_eol = matches!(r#match, Some(LINE_FEED));
